@@ -68,6 +68,7 @@ def alph_c05():
         join("inner", [from_("u")], eqcol("k")),
         join("left", [from_("u"), select(item("k"), item(col("c"), "cc"))], eqcol("k"), alias="u"),
         append(U3),
+        exclude("a"), exclude(col("k", "t")), exclude(col("a", "t"), col("c", "u")), exclude(col("k", "u")),
     ]
 
 def alph_c10():
@@ -187,7 +188,7 @@ CONFIG = {
                 gen=dict(sort_bias=0.35, p_group=0.1, p_append=0.03), depth={"quick": 4, "thorough": 5},
                 nrand={"quick": 500, "thorough": 10000}),
     "C05": dict(relevant={"frame", "rqframe"}, alphabet=alph_c05,
-                gen=dict(p_join=0.25), depth={"quick": 4, "thorough": 5}, nrand={"quick": 500, "thorough": 10000}),
+                gen=dict(p_join=0.3, p_exclude=0.12), depth={"quick": 4, "thorough": 5}, nrand={"quick": 500, "thorough": 10000}),
     "C04": dict(relevant={"rows", "order", "ExecError", "Panic", "rejected-wellformed"}, alphabet=None,
                 slotmodels=[(slots_c04_top, 4), (slots_c04_group, 4)],
                 gen=dict(p_window=0.5, p_group=0.3, p_join=0.05, p_append=0.0), depth={"quick": 0, "thorough": 0},
@@ -207,8 +208,63 @@ ASSUME = [
     "scalar shims FLOOR/CEIL/SIGN/POW/SQRT/EXP/LN/LOG10 registered in SQLite",
 ]
 
+def collect(ctx, progs, res):
+    """programs the specification accepted on SQLite, with the column names SQLite returned (= the specified frame)"""
+    bad = {pid for pid, _, _ in res["rejects"]} | res.get("skipped_ids", set())
+    for p in progs:
+        sd = res["side"].get(p["id"], {})
+        if p["id"] not in bad and sd.get("names") is not None and not sd.get("error") and not sd.get("panic") and not sd.get("exec_error") and sd.get("judged", True):
+            ctx["accepted"].append((p, sd["names"]))
+
+def c05_dialect_frames(rep, tier, coverage, ctx):
+    """C05 beyond SQLite: the columns of the statement emitted for every other dialect (computed by the scope monitor of
+    spec/SqlScope.tla from the text read back with that dialect's parser: star expansion, EXCLUDE / EXCEPT lists, aliases)
+    must be the frame the specification fixed (and SQLite returned) - for the declared program and its open-schema twin."""
+    import scoperun, copy
+    d = workdir("C05-dialects")
+    rnd = random.Random(seed() + 5)
+    acc = ctx["accepted"]
+    if tier != "thorough":
+        # shapes with stars of two relations and exclusions first, then a sample of the rest
+        ops = lambda x: {s["op"] for s in x[0]["steps"]}
+        both = [x for x in acc if {"exclude", "join"} <= ops(x)]
+        excl = [x for x in acc if "exclude" in ops(x) and "join" not in ops(x)]
+        jn = [x for x in acc if "join" in ops(x) and "exclude" not in ops(x)]
+        rest = [x for x in acc if not ({"exclude", "join"} & ops(x))]
+        pick = lambda l, n: l if len(l) <= n else rnd.sample(l, n)
+        acc = pick(both, 300) + pick(excl, 200) + pick(jn, 150) + pick(rest, 150)
+    progs, expect = [], {}
+    for i, (p, names) in enumerate(acc):
+        q = copy.deepcopy(p); q["id"] = f"f{i}"; q["decl"] = True
+        o = copy.deepcopy(p); o["id"] = f"f{i}o"; o["decl"] = False
+        progs += [q, o]
+        expect[q["id"]] = names; expect[o["id"]] = names
+    write_ndjson(os.path.join(d, "progs.ndjson"), progs)
+    pv(["render-ndjson", os.path.join(ROOT, "corpus", "dbs_quick.json"), os.path.join(d, "progs.ndjson"), os.path.join(d, "src.ndjson")])
+    TU = {"t": ["k", "a", "b"], "u": ["k", "a", "c"]}
+    srcs = [dict(r, schema=TU) for r in read_ndjson(os.path.join(d, "src.ndjson"))]
+    src_of = {r["id"]: r["src"] for r in srcs}
+    prog_of = {p["id"]: p for p in progs}
+    sr = scoperun.run(d, srcs, expect=expect)
+    n = 0
+    for rj in sr["rejects"]:
+        if rj["verdict"] != "frame":
+            continue            # scope / syntax verdicts are C07's
+        n += 1
+        import tags
+        rep.violation({"property": "C05", "kind": "dialect-frame", "dialect": rj["dialect"], "program": prog_of[rj["id"]], "prql": src_of[rj["id"]],
+                       "sql": rj["rec"].get("sql"), "expected_frame": expect[rj["id"]], "statement_columns": rj["detail"], "trace_file": rj["trace_file"], "line": rj["line"]},
+                      {"what": "dialect-frame", "dialect": rj["dialect"], "sql": rj["rec"].get("sql") or "", "src": src_of[rj["id"]], "tags": sorted(tags.tags(prog_of[rj["id"]])),
+                       "open": rj["id"].endswith("o"), "got": rj["detail"], "expected": json.dumps(expect[rj["id"]])})
+    return {"dialect_frames": {"programs": len(acc), "with_open_twin": len(progs), "dialects": 12, "statements_judged": sr["judged"], "events": sr["events"],
+                               "frame_rejections": n, "explanation": "result columns of the statement emitted for each of the 12 dialects, computed by SqlScope.tla from the re-parsed text, compared with the specified frame (SqlScopeTrace, rule FrameOk)"},
+            "traces_validated_against_impl": coverage["traces_validated_against_impl"] + sr["judged"]}
+
+CONFIG["C05"]["extra"] = c05_dialect_frames
+
 def check(pid, tier, extra=None):
     cfg = CONFIG[pid]
+    ctx = {"accepted": []}
     rep = Report(pid, tier)
     dbset = os.path.join(ROOT, "corpus", cfg.get("dbset") or ("dbs_quick.json" if tier == "quick" else "dbs_thorough.json"))
     st = l1.selftest(os.path.join(ROOT, "corpus", "dbs_quick.json"))
@@ -232,6 +288,7 @@ def check(pid, tier, extra=None):
         progs, info = l1.mc_generate(f"{pid}-{mname}", m, dbset, workers=8 if tier == "quick" else 14)
         states += info["distinct"]; transitions += info["generated"]
         res = l1check.run(rep, f"{pid}-{mname}", progs, dbset, cfg["relevant"])
+        collect(ctx, progs, res)
         traces += res["accepted"] + res["rejected"]; skipped += res["skipped"]; events += res["events"]
         for kk, vv in res["by_what"].items():
             by_what[kk] = by_what.get(kk, 0) + vv
@@ -246,6 +303,7 @@ def check(pid, tier, extra=None):
         g = gen.G(seed(), **cfg["gen"])
         rprogs = [g.program(i) for i in range(cfg["nrand"][tier])]
     res2 = l1check.run(rep, f"{pid}-rnd", rprogs, dbset, cfg["relevant"])
+    collect(ctx, rprogs, res2)
     traces += res2["accepted"] + res2["rejected"]; skipped += res2["skipped"]; events += res2["events"]
     for kk, vv in res2["by_what"].items():
         by_what[kk] = by_what.get(kk, 0) + vv
@@ -260,6 +318,8 @@ def check(pid, tier, extra=None):
         "not_judged_unsup": skipped, "rejections_by_kind_all_properties": by_what,
         "relevant_kinds": sorted(cfg["relevant"]), "selftest": st,
     }
+    extra = extra or cfg.get("extra")
     if extra is not None:
-        coverage.update(extra(rep, tier, coverage))
+        import inspect as _i
+        coverage.update(extra(rep, tier, coverage, ctx) if len(_i.signature(extra).parameters) > 3 else extra(rep, tier, coverage))
     return rep.finish("model_checking", coverage, ASSUME)
